@@ -112,9 +112,10 @@ Definition rebuild_prod (W : nat) (del : mat) : mat :=
 
 (* ---- orders ---- *)
 Definition goal (optv : vec) (p f : nat) : Qc := getv optv f * get (tech P) p f * invq P p.
+(* np.allclose over the inputs that have a (finite) goal: rows of infinite inventories are skipped *)
 Definition goal_close (stock : mat) (optv : vec) : bool :=
   alln (nS P) (fun p => alln N (fun f =>
-    if isinf P p then negb (Qceqb (getv optv f * get (tech P) p f) 0)
+    if isinf P p then true
     else close (get stock p f) (goal optv p f))).
 Definition gap (gc : bool) (stock : mat) (optv : vec) (p f : nat) : Qc :=
   if gc then 0
